@@ -377,7 +377,7 @@ def check_swap_dense(ctx, case):
 def run_swap_gate(ctx):
     rng = ctx.rng
     table = sym_table()
-    per_cfg = 3 if ctx.quick else 12
+    per_cfg = 8 if ctx.quick else 30
     for sid, (_, ms) in table.items():
         nsym = len(ms)
         for ferm in ferm_options(nsym):
@@ -510,7 +510,7 @@ def check_sco(ctx, case):
 def run_sco(ctx):
     rng = ctx.rng
     table = sym_table()
-    n_per = 12 if ctx.quick else 120
+    n_per = 30 if ctx.quick else 300
     for sid, (_, ms) in table.items():
         nsym = len(ms)
         for ferm in ferm_options(nsym):
@@ -618,6 +618,34 @@ def gen_network(rng, max_legs=4):
     perm = list(range(1, pos)); rng.shuffle(perm)
     inds = [[perm[e - 1] if e > 0 else e for e in l] for l in inds]
     return [list(l) for l in inds]
+
+
+def gen_step1_family(rng):
+    """structured stratum: tensors A, B joined by k >= 2 parallel legs, a one-leg tensor C whose leg d is swapped with a
+    strict, non-empty subset of the parallel legs (d open, or contracted with a fourth tensor, or with A).  The planner
+    resolves it with a Step-1 jump on C (no other leg => only a parity_sign).  On the unchanged tree every member
+    is planned successfully for every accepted order, so no exception is tolerated here."""
+    k = rng.choice((2, 2, 3))
+    par = list(range(1, k + 1))
+    extraA, extraB = rng.randint(0, 2), rng.randint(0, 1)
+    A = par + [-i for i in range(extraA)]
+    B = par[:] + [-(extraA + i) for i in range(extraB)]
+    nopen = extraA + extraB
+    mode = rng.choice(("open", "toD", "toA"))
+    nets = [A, B]
+    if mode == "open":
+        nets.append([-nopen]); d = -nopen
+    elif mode == "toD":
+        nets.append([k + 1]); nets.append([k + 1, -nopen]); d = k + 1
+    else:
+        nets.append([k + 1]); nets[0] = nets[0] + [k + 1]; d = k + 1
+    sub = rng.sample(par, rng.randint(1, k - 1))
+    swaps = [[p, d] if rng.random() < 0.5 else [d, p] for p in sub]
+    # shuffle the legs of every tensor (NOT the tensors: if the fourth tensor D precedes C, the planner jumps on D first and
+    # runs into the registered defect KEY_ASSERT)
+    for l in nets:
+        rng.shuffle(l)
+    return [list(l) for l in nets], swaps
 
 
 def edge_ends(inds):
@@ -751,6 +779,22 @@ def einsum_args(case, order):
     return sub, "".join(let[e] for e in order), sw
 
 
+def known_assert(e):
+    """is this AssertionError the registered candidate defect KEY_ASSERT?  On the unchanged tree the 'Sanity check' of
+    _resolve_bad_swaps can only fail when >= 2 parallel legs are contracted at once and a swap crosses a part of them;
+    with a single contracted leg every bad swap crosses 'all' contracted legs.  The number of legs is read from the
+    failing frame (run-time introspection, no source edit)."""
+    if "Sanity check" not in str(e):
+        return False
+    tb = e.__traceback__
+    n = None
+    while tb is not None:
+        if tb.tb_frame.f_code.co_name == "_resolve_bad_swaps":
+            n = len(tb.tb_frame.f_locals.get("axes1", ()))
+        tb = tb.tb_next
+    return n is not None and n >= 2
+
+
 def is_known(key):
     from harness import core
     return any(k.get("property") == "C05" and k.get("key") == key and k.get("status") == "known" for k in core.load_known())
@@ -785,13 +829,26 @@ def check_network_value(ctx, case):
             vals.append(None)
             continue
         except AssertionError as e:
-            if "Sanity check" in str(e):
+            if known_assert(e) and not case.get("strict"):
                 candidate(ctx, KEY_ASSERT, f"ncon raises AssertionError('{str(e)[:60]}…') on a valid network: inds={inds} order={order} swap={swaps}",
                           dict(case, orders=[order]))
                 vals.append(None)
                 continue
-            raise
+            ctx.fail("oracle", "c05:ncon-raises", f"{sid}: ncon(inds={inds}, order={order}, swap={swaps}) raises AssertionError: {str(e)[:80]}",
+                     case=dict(case, orders=[order]), concrete=True)
+            vals.append(None)
+            continue
+        except Exception as e:      # a valid network: any other exception type is a failure of the property's observable
+            ctx.fail("oracle", "c05:ncon-raises", f"{sid}: ncon(inds={inds}, order={order}, swap={swaps}) raises {type(e).__name__}: {str(e)[:80]}",
+                     case=dict(case, orders=[order]), concrete=True)
+            vals.append(None)
+            continue
         d = np.asarray(r.to_numpy(legs={k: eleg[e] for k, e in enumerate(out)})) if out else np.asarray(r.to_numpy())
+        if d.size != ref.size:
+            ctx.fail("oracle", "c05:ncon-shape", f"{sid}: ncon(inds={inds}, order={order}, swap={swaps}) returns shape {d.shape}, reference {ref.shape}",
+                     case=dict(case, orders=[order]), concrete=True)
+            vals.append(None)
+            continue
         d = d.reshape(ref.shape)
         vals.append(d)
         if not np.array_equal(d, ref):
@@ -840,16 +897,21 @@ def run_networks(ctx):
     import yastn
     rng = ctx.rng
     table = sym_table()
-    nnet = 110 if ctx.quick else 1500
-    tmax = 22 if ctx.quick else 400
+    nnet = 450 if ctx.quick else 6000
+    tmax = 25 if ctx.quick else 420
     t0 = time.time()
     jcases, jmeta = [], []
     for it in range(nnet):
         if time.time() - t0 > tmax:
             ctx.notes.append(f"network generation stopped by the wall-clock guard after {it} networks")
             break
-        inds = gen_network(rng)
-        swaps = gen_swaps(rng, inds)
+        strict = rng.random() < 0.12
+        if strict:
+            inds, swaps = gen_step1_family(rng)
+            ctx.count("net:step1-family")
+        else:
+            inds = gen_network(rng)
+            swaps = gen_swaps(rng, inds)
         orders = orders_for(ctx, rng, inds)
         sid = rng.choice(list(table))
         nsym = len(table[sid][1])
@@ -858,7 +920,7 @@ def run_networks(ctx):
         nt = len(inds)
         conjs = [rng.randint(0, 1) for _ in range(nt)] if rng.random() < 0.25 else None
         case = {"part": "net", "sym": sid, "ferm": ferm_json(ferm), "inds": inds, "swaps": swaps, "orders": orders,
-                "conjs": conjs, "dseed": rng.randrange(1 << 30), "einsum": rng.random() < 0.3, "dmax": 2 if sum(map(len, inds)) <= 10 else 1}
+                "conjs": conjs, "dseed": rng.randrange(1 << 30), "einsum": rng.random() < 0.3, "strict": strict, "dmax": 2 if sum(map(len, inds)) <= 10 else 1}
         text = traced_external(inds, swaps)
         ends = edge_ends(inds)
         nclosed = sum(1 for e in ends if e > 0)
@@ -880,11 +942,17 @@ def run_networks(ctx):
                 ctx.count("planner:refused:" + str(e)[:34])
                 continue
             except AssertionError as e:
-                if "Sanity check" in str(e):
+                if known_assert(e) and not strict:
                     candidate(ctx, KEY_ASSERT, f"_meta_ncon raises AssertionError('{str(e)[:50]}…') on a valid network: inds={inds} order={order} swap={swaps}",
                               dict(case, orders=[order]))
                     continue
-                raise
+                ctx.fail("contract", "c05:planner-raises", f"_meta_ncon(inds={inds}, order={order}, swap={swaps}) raises AssertionError: {str(e)[:80]}", case=dict(case, orders=[order]))
+                usable.append(order)
+                continue
+            except Exception as e:
+                ctx.fail("contract", "c05:planner-raises", f"_meta_ncon(inds={inds}, order={order}, swap={swaps}) raises {type(e).__name__}: {str(e)[:80]}", case=dict(case, orders=[order]))
+                usable.append(order)      # the value oracle below turns it into a concrete failure of ncon
+                continue
             usable.append(order)
             ncmd = {c[0] for c in cmds}
             ctx.count("planner:with-jump-move" if "parity_sign" in ncmd else "planner:no-jump-move")
